@@ -13,11 +13,10 @@ MODULE = "PotasscoVerif.Props.C10"
 THEOREMS = ["PotasscoVerif.C10.C10_tok", "PotasscoVerif.C10.C10_int", "PotasscoVerif.C10.C10_atom_spellings", "PotasscoVerif.C10.C10_lit", "PotasscoVerif.C10.C10_lits",
             "PotasscoVerif.C10.C10_layout_irrelevant_token", "PotasscoVerif.C10.C10_atoms", "PotasscoVerif.C10.C10_rule", "PotasscoVerif.C10.stmtLoop_step",
             "PotasscoVerif.C10.C10_read_program", "PotasscoVerif.C10.C10_agg", "PotasscoVerif.C10.C10_wrule", "PotasscoVerif.C10.dMinimize_spec", "PotasscoVerif.C10.dHeuristic_spec",
-            "PotasscoVerif.C10.C10_read_programX", "PotasscoVerif.C10.stepsLoop_spec", "PotasscoVerif.C10.C10_read_incremental"]
-EXTRA_MODULES = ["PotasscoVerif.Props.C10b", "PotasscoVerif.Props.C10c", "PotasscoVerif.Props.C10d"]
-PARTIAL = {"C10_read_pp for #output and comments": "C10_read_incremental (several steps: #incremental., #step. boundaries) and C10_read_programX prove the whole-program statement for one step of facts, integrity constraints, disjunctive and choice rules with normal "
-           "or weight bodies, #minimize, #assume, #project, #external (all values), #edge and #heuristic (all modifiers), for every filler, atom spelling and admissible list separator; #output statements (terms and "
-           "quoted strings) and comments between statements are decided by correspondence and the printer oracle"}
+            "PotasscoVerif.C10.stmtLoop_comment", "PotasscoVerif.C10.str_spec", "PotasscoVerif.C10.argLoop_spec", "PotasscoVerif.C10.term_spec", "PotasscoVerif.C10.dOutput_spec",
+            "PotasscoVerif.C10.skipComments_spec", "PotasscoVerif.C10.C10_read_programX", "PotasscoVerif.C10.stepsLoop_spec", "PotasscoVerif.C10.C10_read_incremental"]
+EXTRA_MODULES = ["PotasscoVerif.Props.C10b", "PotasscoVerif.Props.C10c", "PotasscoVerif.Props.C10e", "PotasscoVerif.Props.C10p", "PotasscoVerif.Props.C10d"]
+PARTIAL = {}
 BSIZES = (16, 17, 4096)
 RULE = ("programs of 0..14 statements over all statement kinds of the input syntax (facts, disjunctive/choice rules, normal and sum bodies, #minimize, #project, #output with "
         "identifier/function/quoted names, #external with all values, #assume, #heuristic with all modifiers, #edge), 1..4 steps with #incremental/#step, atoms from 1..26, small, "
@@ -27,18 +26,19 @@ RULE = ("programs of 0..14 statements over all statement kinds of the input synt
 TRUSTED = ["std::islower/isalnum in the C locale"]
 ASSUMPTIONS = ["the text contains no NUL byte", "output names are expressible in the input syntax: identifier with optional argument list, or quoted string not starting with a blank",
                "BUF_SIZE >= 12 (longest keyword; smaller buffers hit the 'Token too long' assertion by design)"]
-TECHNIQUE = "Lean 4 theorems on the reader model (whole programs of rules with normal bodies and #assume/#project/#external/#edge read back exactly for every filler and spelling; token, integer, atom, literal inverses) + differential correspondence with the real AspifTextInput at three buffer sizes + printer oracle"
+TECHNIQUE = "Lean 4 theorems on the reader model (whole programs over every statement kind of the input syntax incl. #output terms, comment lines and #incremental/#step are read back exactly for every filler, atom spelling and list separator) + differential correspondence with the real AspifTextInput at three buffer sizes + printer oracle"
 LEVEL_TEXT = ("For EVERY filler (any run of blanks/tabs/CR/LF) and every stream state: C10_tok (a keyword or punctuation followed by any filler is matched and the filler skipped), C10_int, "
               "C10_atom_spellings (each of the spellings letter, x<n>, x_<n> of an atom 1..2^31-1 followed by any filler yields that atom), C10_lit ('not ' + filler + atom), C10_lits "
               "(comma-separated literal lists of any length with fillers everywhere), C10_layout_irrelevant_token (two fillers give the same value and the same remaining input). "
-              "Props/C10b.lean: C10_atoms (atom lists with any admissible separator), C10_rule (facts, constraints, disjunctive/choice rules with normal bodies), the directive lemmas and stmtLoop_step, and "
-              "C10_read_program: a program (one step) of such rules and of #assume, #project, #external, #edge statements, printed with ANY filler at every optional position and ANY spelling of every atom, "
-              "is read as exactly the corresponding calls in order, without error. Props/C10c.lean: C10_agg (aggregates with optional weights; weight 0 omitted), C10_wrule, #minimize, #heuristic, and C10_read_programX: the same for programs over "
-              "ALL statement kinds built from atoms, literals, integers and aggregates; Props/C10d.lean: C10_read_incremental — `#incremental.` and steps separated by `#step.`: per step beginStep, exactly its statements, endStep, "
-              "the boundaries exactly at the markers. #output and comments: model == real reader on every text "
-              "(also damaged ones, incl. the reported line) and printer oracle on the implementation.")
-LEVEL_NOTE = ("Partial proof + correspondence (~5k quick / 120k thorough texts × 2 read modes × 3 buffer sizes) + printer oracle. Trusted: Lean kernel+axioms, C09 for the stream, "
-              "islower/isalnum, harness, generator/oracle in props/c10.py.")
+              "Props/C10b.lean: C10_atoms (atom lists with any admissible separator), C10_rule (facts, constraints, disjunctive/choice rules with normal bodies), the directive lemmas, stmtLoop_step, C10_read_program. "
+              "Props/C10c.lean: C10_agg (aggregates with optional weights; weight 0 omitted), C10_wrule, #minimize, #heuristic. Props/C10e.lean: comment lines ended by LF, CR or CRLF (stmtLoop_comment), quoted strings with "
+              "backslash escapes (str_spec), argument lists with nested parentheses and strings and any filler after every character (argLoop_spec, argsLoop_spec), term_spec, dOutput_spec. Props/C10p.lean: "
+              "C10_read_programX — a program (one step) over ALL statement kinds (facts, constraints, disjunctive/choice rules with normal or weight bodies, #minimize, #assume, #project, #external, #edge, "
+              "#heuristic, #output, comment lines anywhere incl. before the first statement), printed with ANY filler at every optional position and ANY spelling of every atom, is read as exactly the "
+              "corresponding calls in order, without error. Props/C10d.lean: C10_read_incremental — filler and comment lines, `#incremental.`, steps separated by `#step.`: per step beginStep, exactly its "
+              "statements, endStep, the boundaries exactly at the markers. In addition model == real reader on every text (also damaged ones, incl. the reported line) and printer oracle on the implementation.")
+LEVEL_NOTE = ("Proof (whole programs, all statement kinds, every layout) + correspondence (~5k quick / 120k thorough texts × 2 read modes × 3 buffer sizes) + printer oracle. Not in the proved grammar: stray `.` between "
+              "statements and a trailing `#step.` (both covered by the correspondence). Trusted: Lean kernel+axioms, C09 for the stream, islower/isalnum, harness, generator/oracle in props/c10.py.")
 
 I32 = 2**31 - 1
 FILL = ["", "", "", " ", " ", "  ", "\t", "\n", "\r\n", " \n ", "\r", "   \t "]
